@@ -25,12 +25,14 @@ pub async fn run<F>(
 where
     F: Future<Output = Result<BuildTerminationReport>>,
 {
-    if env_state_has_not_changed_since_last_successful_execution(
-        target,
-        target_input,
-        target_output,
-    )
-    .await
+    // A target without any input is always executed, whatever was recorded earlier
+    if !target_input.is_empty()
+        && env_state_has_not_changed_since_last_successful_execution(
+            target,
+            target_input,
+            target_output,
+        )
+        .await
     {
         return Ok(IncrementalRunResult::Skipped);
     }
